@@ -441,6 +441,75 @@ func smOps() []smOp {
 			return true, s.compareWire(label)
 		}})
 	}
+	// Two asynchronous calls issued back to back while the transport has not completed the first write yet (its
+	// writes are deferred for the duration of the pair, then completed): the second call must already see the
+	// effect of the first (a Close started locally stops further application writes at once, a second Close is
+	// refused), and each callback runs exactly once.
+	pair := func(first, second string) {
+		label := first + "+" + second + " (transport write pending)"
+		ops = append(ops, smOp{"local:" + label, func(s *smState) (bool, *engine.Violation) {
+			m := s.m
+			if m.stage == stErrored {
+				return false, nil
+			}
+			s.vs.DeferWrite = func() bool { return true }
+			var calls [2]int
+			var errs [2]error
+			issue := func(i int, what string) {
+				switch what {
+				case "AsyncWrite":
+					s.ws.AsyncWrite([]byte("w"), websocket.TypeText, func(e error) { calls[i]++; errs[i] = e })
+				case "AsyncClose":
+					s.ws.AsyncClose(websocket.CloseGoingAway, "bye", func(e error) { calls[i]++; errs[i] = e })
+				}
+			}
+			expect := func(what string) bool { // does the model accept the call?
+				switch what {
+				case "AsyncWrite":
+					if m.stage == stOpen {
+						m.outq = append(m.outq, mframe{wsref.OpText, "w"})
+						m.flush()
+						return true
+					}
+				case "AsyncClose":
+					if m.stage == stOpen {
+						m.stage = stClosingByUs
+						m.outq = append(m.outq, mframe{wsref.OpClose, string(wsref.ClosePayload(1001, ""))})
+						m.flush()
+						return true
+					}
+				}
+				return false
+			}
+			ok0 := expect(first)
+			issue(0, first)
+			ok1 := expect(second)
+			issue(1, second)
+			s.vs.DeferWrite = nil
+			for i := 0; i < 16 && s.vs.StepWrite(); i++ {
+			}
+			for i, ok := range []bool{ok0, ok1} {
+				if calls[i] != 1 {
+					return true, smViol("wsproto/async-pair-callbacks", "%s: callback of call %d ran %d times", label, i+1, calls[i])
+				}
+				if ok && errs[i] != nil {
+					return true, smViol("wsproto/async-pair-refused", "%s: call %d failed with %v in a stage where it is allowed", label, i+1, errs[i])
+				}
+				if !ok && errs[i] == nil {
+					sig := "wsproto/write-not-refused"
+					if []string{first, second}[i] == "AsyncClose" {
+						sig = "wsproto/close-not-refused"
+					}
+					return true, smViol(sig, "%s: call %d (%s) returned nil although the preceding call had already taken effect (stage %s)", label, i+1, []string{first, second}[i], stageNames[m.stage])
+				}
+			}
+			return true, s.compareWire(label)
+		}})
+	}
+	pair("AsyncClose", "AsyncWrite")
+	pair("AsyncClose", "AsyncClose")
+	pair("AsyncWrite", "AsyncClose")
+	pair("AsyncWrite", "AsyncWrite")
 	closeOp("Close", func(s *smState) (int, error) { return 1, s.ws.Close(websocket.CloseGoingAway, "bye") })
 	closeOp("AsyncClose", func(s *smState) (n int, err error) {
 		s.ws.AsyncClose(websocket.CloseGoingAway, "bye", func(e error) { n++; err = e })
@@ -535,6 +604,7 @@ func C08(tier string) *engine.Report {
 	}
 	var tot engine.BFSTotals
 	sp := smSpec(depth)
+	sp.Until = engine.Cap(tier)
 	tot.Add(sp.Name, sp.Run(), rep)
 	tot.Fill(rep, fmt.Sprintf("BFS to depth %d over 13 peer events and 10 local calls from the initial state of a real websocket.Stream on a scripted transport, in lock-step with an RFC 6455 control-plane model; "+
 		"each distinct key is expanded once, so every event is applied in every reachable abstract state; every transition executes the real calls and compares outbound wire, call result, callbacks, Pending() and State()", depth))
